@@ -113,6 +113,24 @@ def _jsonable(x):
 def run_shard_process(prop, spec, outpath):
     """Entry point of a worker process."""
     mod = importlib.import_module(f'hidverif.checks.{prop.lower()}')
+    reached = set()
+    cov_on = False
+    try:
+        # M-COV: which functions of the compiler under test did this shard's workload enter?
+        # (sys.monitoring PY_START, each code object disabled after its first hit: negligible cost)
+        mon = sys.monitoring
+        mon.use_tool_id(4, 'hidverif-cov')
+
+        def _start(code, offset):
+            fn = code.co_filename
+            if fn.startswith(env.REPO + os.sep) and os.sep + 'hidc' + os.sep in fn:
+                reached.add(fn[len(env.REPO) + 1:].replace(os.sep, '/')[5:-3] + ':' + code.co_qualname)
+            return mon.DISABLE
+        mon.register_callback(4, mon.events.PY_START, _start)
+        mon.set_events(4, mon.events.PY_START)
+        cov_on = True
+    except Exception:  # noqa  (older interpreter: coverage evidence is simply absent)
+        pass
     try:
         env.load()
         from .svm import selfcheck
@@ -121,6 +139,9 @@ def run_shard_process(prop, spec, outpath):
     except env.MachineryError as e:
         res = new_result()
         res['inconclusive'].append(f'machinery: {e}')
+    if cov_on:
+        sys.monitoring.set_events(4, 0)
+        res.setdefault('sets', {})['hidc_functions_entered'] = sorted(reached)
     with open(outpath, 'w') as f:
         json.dump(_jsonable(res), f)
 
@@ -233,6 +254,14 @@ def conclude(mod, merged, tier, seed, wall):
     }
     if merged['exhaustive'] is not None:
         coverage['exhaustive'] = bool(merged['exhaustive'])
+    entered = merged['sets'].get('hidc_functions_entered')
+    if entered is not None:
+        coverage['hidc_functions_entered_count'] = len(entered)
+        coverage['observed']['hidc_functions_entered'] = entered          # the full list: it is the M-COV evidence
+        missing = [f for f in getattr(mod, 'REQUIRED_HIDC_FUNCTIONS', ()) if f not in entered]
+        if missing:
+            inconc.append(f'the workload never entered the compiler functions that decide this property: {missing}')
+            coverage['inconclusive_reasons'] = inconc[:10]
     evidence = {
         'property_id': prop, 'tier': tier, 'seed': int(seed), 'level': getattr(mod, 'LEVEL', 'exploration'),
         'coverage': coverage, 'assumptions': list(mod.ASSUMPTIONS), 'wall_s': round(wall, 2),
